@@ -384,3 +384,48 @@ theorem group_shift (n : Nat) (s : List Nat) (j : Nat) : group n (s.drop n) j = 
   rw [Nat.add_comm]
 
 end CB.Wrappers
+
+/-! ### coverage round: the serialised form (`Serialize for NonZero<T>` / `Odd<T>`) and its way back -/
+namespace CB.Wrappers
+open CB
+
+theorem leBytesOf_length : ∀ (k v : Nat), (leBytesOf k v).length = k
+  | 0, _ => rfl
+  | k + 1, v => by show (leBytesOf k (v / 256)).length + 1 = k + 1; rw [leBytesOf_length k]
+
+theorem leVal_leBytesOf : ∀ (k v : Nat), leVal (leBytesOf k v) = v % 256 ^ k
+  | 0, v => by simp [leBytesOf, leVal, Nat.mod_one]
+  | k + 1, v => by
+    show v % 256 % 256 + 256 * leVal (leBytesOf k (v / 256)) = v % 256 ^ (k + 1)
+    rw [leVal_leBytesOf k, Nat.mod_mod, Nat.pow_succ', Nat.mod_mul]
+
+/-- positional: byte `i` is `v / 256^i % 256` -/
+theorem leBytesOf_eq_range : ∀ (k v : Nat), leBytesOf k v = (List.range k).map fun i => v / 256 ^ i % 256
+  | 0, _ => rfl
+  | k + 1, v => by
+    show v % 256 :: leBytesOf k (v / 256) = _
+    rw [leBytesOf_eq_range k, List.range_succ_eq_map, List.map_cons, List.map_map]
+    simp only [Nat.pow_zero, Nat.div_one, List.cons.injEq, true_and]
+    apply List.map_congr_left
+    intro i _
+    show v / 256 / 256 ^ i % 256 = v / 256 ^ (i + 1) % 256
+    rw [Nat.div_div_eq_div_mul, Nat.pow_succ, Nat.mul_comm]
+
+theorem B_pow_eq_256 (n : Nat) : B ^ n = 256 ^ (8 * n) := by
+  rw [Nat.pow_mul]; rfl
+
+/-- the frame written for a well-formed `n`-limb value is accepted by the frame reader and gives the value back -/
+theorem bincodeArray_frame {a : List Nat} (hw : WF a) (hn : 8 * a.length < B) :
+    bincodeArray a.length (bincodeFrame a) = .ok a := by
+  have h1 : (leBytesOf 8 (8 * a.length)).length = 8 := leBytesOf_length _ _
+  have h2 : (leBytesOf (8 * a.length) (val a)).length = 8 * a.length := leBytesOf_length _ _
+  unfold bincodeArray bincodeFrame
+  rw [if_neg (by rw [List.length_append, h1]; omega)]
+  simp only [List.take_left' h1, List.drop_left' h1]
+  have hv : leVal (leBytesOf 8 (8 * a.length)) = 8 * a.length := by
+    rw [leVal_leBytesOf]; exact Nat.mod_eq_of_lt hn
+  rw [hv, if_neg (by omega), if_neg (fun h => h rfl), List.take_of_length_le (by omega)]
+  unfold uintFromLeBytes
+  rw [leVal_leBytesOf, ← B_pow_eq_256, Nat.mod_eq_of_lt (val_lt hw), toLimbs_val hw]
+
+end CB.Wrappers
